@@ -1,7 +1,3 @@
 SPECIFICATION TraceSpec
-CONSTANTS
-  Mutation = "none"
-  AdversaryOn = FALSE
-  Layer = "ref"
 POSTCONDITION TraceAccepted
 CHECK_DEADLOCK FALSE
